@@ -167,6 +167,10 @@ pub fn check_c02(c: &SolveCase, ctx: &mut Ctx) -> CheckResult {
     ctx.sub_evals += 1;
     label_case(&c.ps, &c.st, &out, ctx);
     ctx.label(format!("planted:{:?}->{}", c.ps.kind, status_name(out.status)));
+    if let Some(why) = extreme_regime(&out) {
+        ctx.label(format!("not-judged:{why}"));
+        return Ok(());
+    }
     let dropped = dropped_rows(&c.ps, &c.st, bound);
     let tol = InfTols { abs: c.st.tol_infeas_abs, rel: c.st.tol_infeas_rel };
     match out.status {
